@@ -9,6 +9,7 @@ import os
 
 from vt import common
 from vt.checks import gentest_common as G
+from vt.gens import commands as GC
 from vt.monitors import fsmon
 
 ID = 'C11'
@@ -39,7 +40,7 @@ def run_case(ctx, case):
     from vt.gens import commands as GC
     datelike = any(d in alltext for d in GC.DATELIKE + GC.VERSIONLIKE)
     cls = [('refmode=' + case['refmode'],), ('script=' + case['script'],), ('iterations=%d' % case['iterations'],),
-           ('datelike=%d' % datelike,), ('status=%d' % spec['status'],), ('nfiles=%d' % len(spec['files']),),
+           ('datelike=%d' % datelike,), ('tmpdir_outputs=%d' % any(f['name'].startswith(GC.TMP_PREFIX) for f in spec['files']),), ('status=%d' % spec['status'],), ('nfiles=%d' % len(spec['files']),),
            ('flags=' + ','.join(f for f in case['flags'] if f.startswith('--no') or f == '--non-zero-exit'),)]
     g = G.generate(ctx, case)
     if g is None:
@@ -71,8 +72,9 @@ def run_case(ctx, case):
         want_refs.append('STDOUT')
     if '--no-stderr' not in flags:
         want_refs.append('STDERR')
+    tmp_tracked = not case.get('wizard') or case['wizard']['tmpdir_tracking']
     if case['refmode'] != 'none':
-        want_refs += [os.path.basename(f['name']) for f in spec['files']]
+        want_refs += [os.path.basename(f['name']) for f in spec['files'] if not f['name'].startswith(GC.TMP_PREFIX) or tmp_tracked]
     # (gentest stores a second file with the same name - compared case-insensitively - under name+number)
     have = os.listdir(g.refdir) if os.path.isdir(g.refdir) else []
     missing = [r for r in want_refs if not any(h == r or (h.startswith(r) and h[len(r):].isdigit()) for h in have)]
@@ -92,6 +94,8 @@ def run_case(ctx, case):
         rec.violation('generation_touches_other_files', {'case': case, 'mech': dict(mech, decoy=any(b in G.DECOYS for b in bad)),
                                                          'facts': {'paths': bad, 'diff': d}})
     for fn, data in g.bare[3].items():
+        if fn.startswith(GC.TMP_PREFIX):
+            continue                      # written under whatever $TMPDIR the run was given, not in the working directory
         p = os.path.join(g.workdir, fn)
         if not os.path.exists(p):
             rec.violation('command_output_removed', {'case': case, 'mech': mech, 'facts': {'file': fn}})
